@@ -27,11 +27,13 @@ import gen
 
 import c11_lib as L
 
+L.reset_default_registry()  # records the baseline of the default registry (string cache, table)
+
 PROOF_MODULES = ["UnytProofs.C11", "UnytProofs.C11Tab", "UnytProofs.C11Tab2"]
 
 LIB_SRC = open(os.path.join(os.path.dirname(os.path.abspath(__file__)), "c11_lib.py"), encoding="utf-8").read()
 PRE = (LIB_SRC + "\nimport unyt, sympy\nfrom unyt import Unit, unyt_array, unyt_quantity\n"
-       "from unyt.unit_registry import UnitRegistry, default_unit_registry\nimport unyt.dimensions as D\n")
+       "from unyt.unit_registry import UnitRegistry, default_unit_registry\nimport unyt.dimensions as D\nreset_default_registry()\n")
 
 # ----------------------------------------------------------------------------------------
 # object families: python source that leaves `reg`; `post` runs after the object `q` exists
@@ -50,7 +52,7 @@ FAMILIES = {
 
 CORE_UNITS = {
     "default": ["degree", "lat", "lon", "rad", "mrad", "arcmin", "K", "R", "degC", "degF", "delta_degC", "delta_degF",
-                "mK", "dB", "Np", "km", "m/s", "g", "kg*m**2/s**2", "dimensionless", "percent", "T", "statC", "rad*m/km", "1/K"],
+                "mK", "dB", "Np", "km", "m/s", "g", "kg*m**2/s**2", "dimensionless", "percent", "T", "statC", "rad*m/km", "1/K", "delta_degC*mol", "K*mol", "dB*mol"],
     "added": ["vfoo", "kvfoo", "vang", "vtem", "vlog", "vfoo*s", "degree", "K", "dB", "km"],
     "modified-default": ["g", "kg", "km", "degree", "K"],
     "removed-default": ["km", "degree", "K", "dB"],
@@ -65,11 +67,14 @@ DATA = {
     "a2": ("unyt_array", "np.array([[1.5, 2.5], [3.5, -4.25]])"),
     "i": ("unyt_array", "np.array([90, 30, -45], dtype='int32')"),
     "f4": ("unyt_array", "np.array([90.0, 30.5], dtype='float32')"),
+    # numbers that need all 53 bits (a text route that rounds shows here)
+    "p": ("unyt_array", "np.array([0.1, 1.0 / 3.0, 2.718281828459045e-07, 3.0000000000000004e+30])"),
 }
 
 
 def case_src(family, unit, data, warm=False):
     pre, post = FAMILIES[family]
+    pre = "reset_default_registry()\n" + pre
     cls, d = DATA[data]
     if warm:
         u = f"Unit({unit!r}, registry=reg)"
@@ -195,6 +200,10 @@ def run_pair(src, route, proto, container):
     rs = route_src(route, proto, container)
     res = {}
     for order in ("orig-first", "restored-first"):
+        if order == "restored-first" and route in ("arrayCopy", "copyCopy") and res.get("same-unit"):
+            # the restored object holds the very same Unit object: nothing can depend on the order
+            res[order] = res["orig-first"]
+            break
         ns = fresh_ns()
         exec(src, ns)  # noqa: S102 - harness-generated source
         q = ns["q"]
@@ -205,6 +214,7 @@ def run_pair(src, route, proto, container):
             return res
         r = ns["r"]
         if order == "orig-first":
+            res["same-unit"] = r.units is q.units
             res["diffs"] = L.state_diff(q, r)
             res["canon"] = (L.dim_identity(q.units), L.dim_identity(r.units))
         L.clear_caches()
@@ -483,9 +493,9 @@ def plan(tier, rng):
             jobs.append((fam, u, "a", True, "unitCopy", None, False))
             jobs.append((fam, u, "a", True, "unitOfStr", None, False))
             jobs.append((fam, u, "a", False, "pickleArray", protos[(len(jobs) + 1) % len(protos)], True))
-    for d in ("a2", "i", "f4"):
+    for d in ("a2", "i", "f4", "p"):
         for route in L.ROUTES:
-            if route == "saveLoadTxt":
+            if route == "saveLoadTxt" and d != "p":
                 continue  # a text file of %.18e columns: 1-D float64 data only
             jobs.append(("default", "km", d, False, route, None, False))
             jobs.append(("default", "degree", d, False, route, None, False))
@@ -513,7 +523,15 @@ def plan(tier, rng):
                         jobs.append((fam, u, "q", False, r, p, False))
                 for route in L.ROUTES:
                     jobs.append((fam, u, "q", True, route, None, False))
-    return jobs
+    # a text file holds columns: `loadtxt` returns arrays (a 0-d array for one number), whatever was
+    # written — the class of the result is C16's business, so this route is run on arrays only
+    jobs = [(f, u, ("a" if (r == "saveLoadTxt" and d not in ("a", "p")) else d), w, r, p, c) for (f, u, d, w, r, p, c) in jobs]
+    seen, out = set(), []
+    for j in jobs:
+        if j not in seen:
+            seen.add(j)
+            out.append(j)
+    return out
 
 
 # ----------------------------------------------------------------------------------------
@@ -547,7 +565,8 @@ def correspond(chk, tier, rng):
     for fam, units in CORE_UNITS.items():
         for u in units:
             cases.append((fam, u, "a"))
-            cases.append((fam, u, "q"))
+            if tier == "thorough" or fam == "default":
+                cases.append((fam, u, "q"))
     cases += [("default", "km", "i"), ("default", "degree", "f4"), ("added", "vfoo", "a2")]
     if tier == "thorough":
         ex2 = gen.extract()
@@ -860,7 +879,13 @@ def run(tier, seed):
         repaired_identity = not loses and ex["flags"]["pickleArray"]["dfltRowCanonOnCanon"]
     except Exception:  # noqa: BLE001
         repaired_identity = False
-    # --- correspondence -------------------------------------------------------------------
+    # --- direct oracle: started first, in 3 worker processes, collected after the correspondence ---
+    jobs = plan(tier, rng)
+    nproc = 3
+    pool = multiprocessing.get_context("fork").Pool(nproc)
+    pending = pool.map_async(_work, chunks(jobs, nproc * 8))
+    pool.close()
+    # --- correspondence (this process) ----------------------------------------------------------
     if chk.proof["build_ok"] or os.path.exists(os.path.join(core.LEAN, ".lake", "build", "bin", "drv_c11")):
         try:
             correspond(chk, tier, rng)
@@ -870,15 +895,10 @@ def run(tier, seed):
             chk.disagree("harness", traceback.format_exc()[-1500:] or repr(e))
     chk.extra["correspondence_wall_s"] = round(time.time() - t0, 1)
     replay_witnesses(chk, repaired_identity)
-    # --- direct oracle ---------------------------------------------------------------------
-    jobs = plan(tier, rng)
-    nproc = 4
-    budget = 70 if tier == "quick" else 600
     recs = []
-    with multiprocessing.get_context("fork").Pool(nproc) as pool:
-        # the core jobs come first in every chunk order; results are consumed in submission order
-        for part in pool.imap(_work, chunks(jobs, nproc * 6)):
-            recs.extend(part)
+    for part in pending.get():
+        recs.extend(part)
+    pool.join()
     for job, fails, counts in recs:
         family, unit, data, warm, route, proto, container = job
         for b, n in counts.items():
@@ -899,6 +919,6 @@ def run(tier, seed):
     ]
     rule = ("(family, unit, data, warm/cold, route, pickle protocol, container) cases: every route x core units of 7 registry families "
             "(default, added symbols, modified default, removed default, unit system, objects created before modify) + seeded table symbols and "
-            "generated compounds; each case runs the 45-operation follow-up battery on original and restored in both orders; "
+            "generated compounds; each case runs the 44-operation follow-up battery on original and restored in both orders; "
             "distinct = distinct case tuples and distinct (restore|follow, family, unit, data, route, op) correspondence lines")
     return chk.finish(rule)
